@@ -226,6 +226,50 @@ func genC12(r *Rand, nvar int) *VariantCase {
 	return c
 }
 
+// genC12Twin: "';', '#' and ',' inside strings remain data" needs a reference that does not contain them: the base program has the
+// letter q wherever the variant has one of those characters inside a string literal ([FILE "..."] names - they reach the .file record
+// of an object - and DB strings).  Both must assemble, to outputs that differ only by those characters.
+func genC12Twin(r *Rand) *VariantCase {
+	coff := r.Bool()
+	name := Pick(r, []string{"aqb.c", "q", "qq.nas", "dir/aqbqc.nas", "naskfunc.q", "q.nas", "a qb.nas", "x.nasq"})
+	str := Pick(r, []string{"q", "aqb", "helloq world", "qqq", "q q", "MOV AX,1q", "[q]", "semi q colon"})
+	build := func(sub func(string) string) string {
+		var b strings.Builder
+		if coff {
+			b.WriteString("[FORMAT \"WCOFF\"]\n[INSTRSET \"i486p\"]\n[BITS 32]\n")
+		}
+		b.WriteString("[FILE \"" + sub(name) + "\"]\n")
+		if coff {
+			b.WriteString("\tGLOBAL _f\n[SECTION .text]\n")
+		}
+		b.WriteString("_f:\n\tDB \"" + sub(str) + "\",0x11\n\tMOV AL,5\n\tDB 1,\"" + sub(str) + "\"\n\tRET\n")
+		return b.String()
+	}
+	c := &VariantCase{Prop: "C12", Twin: ";#,", Base: []byte(build(func(s string) string { return s }))}
+	for v := 0; v < 4; v++ {
+		ch := ";#,"[v%3 : v%3+1]
+		if v == 3 {
+			k := 0
+			c.Variants = append(c.Variants, []byte(build(func(s string) string {
+				out := []byte(s)
+				for i := range out {
+					if out[i] == 'q' {
+						out[i] = ";#,"[k%3]
+						k++
+					}
+				}
+				return string(out)
+			})))
+			c.Labels = append(c.Labels, "string-twin mixed")
+			continue
+		}
+		c.Variants = append(c.Variants, []byte(build(func(s string) string { return strings.ReplaceAll(s, "q", ch) })))
+		c.Labels = append(c.Labels, "string-twin "+ch)
+	}
+	c.Cell_ = fmt.Sprintf("string-twin coff=%v name=%s", coff, name)
+	return c
+}
+
 // loadCorpus: the book programs copied from /repo/test into /verif/corpus/book.
 func loadCorpus(env *Env) map[string]string {
 	out := map[string]string{}
@@ -277,6 +321,9 @@ func init() {
 		for i := 0; i < n; i++ {
 			cases = append(cases, genC12(r, nv))
 		}
+		for i := 0; i < n/10; i++ {
+			cases = append(cases, genC12Twin(r))
+		}
 		corpus := loadCorpus(env)
 		var cnames []string
 		for k := range corpus {
@@ -294,7 +341,7 @@ func init() {
 		}
 		rep.Extra["corpus_programs"] = len(cnames)
 		rep.Rule = "the book programs of /repo/test (copied to corpus/book) under line-level re-layouts, and seeded programs (labels, EQUs, data with strings containing ; # , and quotes, GLOBAL lists of 1-4 and EXTERN lists of 2-5 names, both modes) rendered canonically and in token-preserving re-layouts: ';' and '#' comments (text with quotes, commas, brackets, Japanese) after any statement or on their own lines, blank lines, indentation of any statement including labels, tabs/spaces, 0-2 blanks around commas, operators, parentheses and inside brackets, trailing whitespace, LF/CRLF/CR, final newline present/absent, layout-only lines after the last statement, files ending in every kind of statement; " +
-			"only gaps where NASK lexically allows whitespace are varied; a part of the programs also goes through the real command (cmd/gosk) in layouts that only its file reading could treat differently: physical lines of 65535, 65536 and 70000 bytes (comment, trailing blanks, gap after the mnemonic), 9000 extra lines with LF and CRLF ends, 10^5 blank lines, no final newline; the command must leave the bytes and exit status of the canonical layout; oracle: every re-layout assembles to the bytes of the canonical layout; distinct = (mode, origin, size bucket) cells; each case carries several layouts"
+			"only gaps where NASK lexically allows whitespace are varied; a part of the programs also goes through the real command (cmd/gosk) in layouts that only its file reading could treat differently: physical lines of 65535, 65536 and 70000 bytes (comment, trailing blanks, gap after the mnemonic), 9000 extra lines with LF and CRLF ends, 10^5 blank lines, no final newline; the command must leave the bytes and exit status of the canonical layout; string twins: programs whose [FILE] name (flat and WCOFF, where it reaches the .file record) and DB strings contain ';', '#' or ',' against the same program with the letter q in their place - both must assemble and the outputs may differ only by those characters; oracle: every re-layout assembles to the bytes of the canonical layout; distinct = (mode, origin, size bucket) cells; each case carries several layouts"
 		// the same property through the real command: layouts that only the file-reading side could treat differently
 		ncli := 0
 		for i, k := range cnames {
